@@ -56,6 +56,15 @@ PROPS = {
         "assumptions": ["partial so far: password / cipher changes (old key no longer unlocks, no blob under the old key remains) are not yet modelled or exercised; this check covers compaction in any order and repetition with edits"],
         "timeout": {"quick": 2400, "thorough": 14000},
     },
+    "C16": {
+        "lean": ["SosModel.Props.C16"],
+        "runs": [{"crate": "haccount", "domain": "integrity"}],
+        "classes": r"^c16-",
+        "trusted_base": [HASH_TB, "a stored row is (content bytes, stored checksum); row framing (length fields, identities) is not part of the model"],
+        "assumptions": ["external file blobs (file_integrity) are not yet covered: vault rows, event records and folder parts only",
+                        "corruption of row framing (length fields) is outside the property's content regions and is not exercised"],
+        "timeout": {"quick": 1500, "thorough": 6000},
+    },
     "C20": {
         "lean": ["SosModel.Props.C20"],
         "runs": [{"crate": "haccount", "domain": "folder"}],
